@@ -29,7 +29,8 @@ def run(tier, replay):
     quick = tier == "quick"
     # (1) exhaustive: transcription (L2) vs reference semantics (L1) in the model, sharded over processes;
     #     runs in the background while the first batch of real observations is produced and judged
-    shards = fc.filter_shards(tier)
+    # a replay only re-judges the given observations: one small model shard keeps the run short
+    shards = [fc.shard("r16", [16], depth=1, leaf="full")] if replay else fc.filter_shards(tier)
     pool = ThreadPoolExecutor(max_workers=1)
     mcf = pool.submit(fc.run_mc, PID, "KFilterMC", fc.MC_TEMPLATE, shards, 4 if quick else 8,
                       600 if quick else 2400, lib.seed())
@@ -54,7 +55,7 @@ def run(tier, replay):
     if tot[3] != 0:
         lib.tool_error("model: a divergence outside the two known classes exists (CENSUS unexplained > 0)")
     # vacuity guards: both defect classes and the candidate-set classes are reached in the model
-    if tot[1] == 0 or tot[5] == 0 or tot[6] == 0 or tot[8] == 0 or (not quick and tot[7] == 0):
+    if not replay and (tot[1] == 0 or tot[5] == 0 or tot[6] == 0 or tot[8] == 0 or (not quick and tot[7] == 0)):
         lib.tool_error(f"model census is vacuous: {tot}")
     # (3) the real code, batch 2: the cases TLC chose (one per outcome class + counterexamples) (A)
     if not replay and cases:
